@@ -311,6 +311,17 @@ def tensor_cases(draw, tier):
     return {"T": np.ascontiguousarray(T), "mode": mode, "layout": layout, "pattern": pattern}
 
 
+@st.composite
+def long_tensor_cases(draw, tier):
+    """One long axis (crossing the blocking sizes) against two short ones, index-coded entries (all distinct)."""
+    Lg = draw(gen.long_dim(cap=129 if tier == "quick" else 300))
+    a, b = draw(st.integers(1, 3)), draw(st.integers(1, 3))
+    I, J, K = draw(st.permutations([Lg, a, b]))
+    T = index_coded(I, J, K) / 16.0
+    return {"T": np.ascontiguousarray(T), "mode": draw(st.integers(0, 2)),
+            "layout": draw(st.sampled_from(["C", "C", "F", "transposed"])), "pattern": "indexed"}
+
+
 def check_tensor_gen(case):
     T = np.asarray(case["T"], dtype=float)
     mode, layout = int(case["mode"]), case["layout"]
@@ -751,6 +762,8 @@ PROPERTY = Property(
     clauses=[
         Clause("tensor_exhaustive", check_tensor_enum, enumerate=enum_tensor, budget={"quick": 0, "thorough": 0}),
         Clause("tensor_generated", check_tensor_gen, strategy=tensor_cases, budget={"quick": 1000, "thorough": 10000}),
+        Clause("tensor_long_dimension", check_tensor_gen, strategy=long_tensor_cases, budget={"quick": 24, "thorough": 240},
+               shrink=False),
         Clause("colour_roundtrip", check_colour, strategy=colour_cases, budget={"quick": 800, "thorough": 8000}),
         Clause("channels", check_channels, strategy=channel_cases, budget={"quick": 400, "thorough": 5000}),
         Clause("metrics", check_metrics, strategy=metric_cases, budget={"quick": 1600, "thorough": 12000}),
